@@ -39,6 +39,19 @@ def main():
     os.makedirs(base, exist_ok=True)
     import netgen
     from ethosu.vela import vela
+    # observation only: how often the randomised search of the HillClimb allocator ran in each step (a network whose first
+    # placement is optimal never draws a random number, so its compilation cannot show a dependence on generator state)
+    search_calls = [0]
+    try:
+        from ethosu.vela import hillclimb_allocation as _hc
+        _orig_search = _hc.HillClimbAllocator.search
+
+        def _counted(self, *a, **k):
+            search_calls[0] += 1
+            return _orig_search(self, *a, **k)
+        _hc.HillClimbAllocator.search = _counted
+    except Exception:
+        pass
     results = []
     buffers = {}      # the caller's model buffers of the bytes entry point, one object per model for the whole history
     for i, st in enumerate(hist["steps"]):
@@ -49,6 +62,7 @@ def main():
         data = net.build()
         open(mp, "wb").write(data)
         r = {"entry": st["entry"], "net": net.name, "ops": net.desc}
+        calls_before = search_calls[0]
         buf = io.StringIO()
         cwd = os.getcwd()
         try:
@@ -86,6 +100,7 @@ def main():
             r["traceback"] = traceback.format_exc()[-2500:]
         finally:
             os.chdir(cwd)
+        r["hillclimb_search_calls"] = search_calls[0] - calls_before
         r["summary"] = summary_of(d if st["entry"] != "convert" else os.path.join(d, "output"))
         r["stdout_tail"] = buf.getvalue()[-600:]
         results.append(r)
